@@ -28,7 +28,7 @@ package metrics
 //@   ghost_at "newHistory = append(newHistory, h)": ghost(gout) = ghost(gout) + dOf(h)
 //@   ensures (ghost(gin) - ghost(gout)) % 18446744073709551616 == 0
 //@   ensures wfHist(c)
-//@   ensures forall(i, 0, old(len(c.history)), old(c.history[i]).Delta == old(c.history[i].Delta) && (old(c.history[i].Delta) != nil ==> *old(c.history[i]).Delta == old(*c.history[i].Delta)))
+//@   ensures forall(i, 0, old(len(c.history)), old(c.history[i].Delta) != nil ==> *old(c.history[i].Delta) == old(*c.history[i].Delta))
 //@   loop 1:
 //@     modifies nothing
 //@     invariant -1 <= rangeindex && rangeindex < len(c.history)
@@ -37,7 +37,7 @@ package metrics
 //@     invariant forall(j, 0, len(newHistory), newHistory[j] != nil && allocated(newHistory[j]) && allocated(newHistory[j].Delta) && allocated(newHistory[j].TimeUnixMilli) && allocated(newHistory[j].RollUp))
 //@     invariant last != nil ==> allocated(last) && allocated(last.Delta) && allocated(last.TimeUnixMilli) && allocated(last.RollUp)
 //@     invariant (ghost(gin) - ghost(gout) - ite(last != nil, mathint(*last.Delta), 0)) % 18446744073709551616 == 0
-//@     invariant forall(i, 0, len(c.history), c.history[i].Delta == old(c.history[i].Delta) && (c.history[i].Delta != nil ==> *c.history[i].Delta == old(*c.history[i].Delta)))
+//@     invariant forall(i, 0, old(len(c.history)), old(c.history[i].Delta) != nil ==> *old(c.history[i].Delta) == old(*c.history[i].Delta))
 
 //@ // Window query as seen by the quota check: its value is not constrained here (roll-up
 //@ // conservation is a separate obligation); each query is counted in ghost ndelta.
@@ -46,6 +46,18 @@ package metrics
 //@   modifies ghost(ndelta)
 //@   ensures ghost(ndelta) == old(ghost(ndelta)) + 1
 
+//@ // The eight compaction passes of one roll-up keep the history well formed.
+//@ func (c *Counter) rollUp()
+//@   property C19
+//@   mode int
+//@   noframe
+//@   wraps_signed
+//@   requires c != nil && wfHist(c)
+//@   ensures wfHist(c)
+//@   // no pass runs unless the operation count is a multiple of 1000: then nothing changes
+//@   ensures old(c.op) % 1000 != 0 ==> c.op == old(c.op) && c.value == old(c.value) && c.timeSeries == old(c.timeSeries) && len(c.history) == old(len(c.history))
+//@   ensures old(c.op) % 1000 != 0 ==> forall(i, 0, len(c.history), c.history[i] == old(c.history[i]) && c.history[i].Delta == old(c.history[i].Delta) && (c.history[i].Delta != nil ==> *c.history[i].Delta == old(*c.history[i].Delta)))
+//@
 //@ // History records are immutable once appended (C19): an increment adds its own record
 //@ // and leaves every earlier record - which a dump taken earlier may still share - exactly as
 //@ // it was. (Stated for the calls that do not trigger a roll-up: operation count not a multiple
